@@ -1,5 +1,6 @@
 import MV.Driver.Stream
 import MV.Driver.Graph
+import MV.Driver.MWU
 open MV
 
 /-- ops whose handler models panics itself -/
@@ -8,6 +9,8 @@ def panicAware : List String := []
 def dispatchOp (ins outs : List J) : Verdict :=
   match ins with
   | .atom "st" :: rest => Stream.handle rest outs
+  | .atom "ud" :: rest => MWU.handleUD rest outs
+  | .atom "mwu" :: rest => MWU.handleMWU rest outs
   | .atom op :: rest =>
     if Graph.ops.contains op then Graph.handle op rest outs
     else .badOp s!"unknown op {op}"
